@@ -231,6 +231,33 @@ func c02(r *Run) {
 					counted = true
 				}
 			})
+			if !(linked && counted) {
+				// without a shared count the design relies on FIFO release order: the later node (the fresh one) must
+				// become the owner and the earlier one must give ownership up - in this same function
+				setF, unsetF := false, false
+				unm := w.ConstInt("flagUnmanaged")
+				forEachIns(fn, func(j ssa.Instruction) {
+					cc := callCommon(j)
+					if cc == nil || cc.StaticCallee() == nil || len(cc.Args) < 2 {
+						return
+					}
+					k, okc := constInt(cc.Args[1])
+					if !okc || k != unm {
+						return
+					}
+					switch cc.StaticCallee().Name() {
+					case "setFlag":
+						if cc.Args[0] == srcNode {
+							setF = true
+						}
+					case "unsetFlag":
+						if cc.Args[0] == dst {
+							unsetF = true
+						}
+					}
+				})
+				r.ob("C02.R4:"+fn.Name()+":unlinked-split-transfers-ownership", "where two nodes share a block without a shared count, ownership is handed to the later node of the chain (fresh node made the owner, the earlier node marked unmanaged): the block is then at least not freed while the later part is still unsent/unread", fn, ins, setF && unsetF, fmt.Sprintf("donor.setFlag(unmanaged)=%v, new.unsetFlag(unmanaged)=%v", setF, unsetF), true)
+			}
 			key := "C02.R4:" + fn.Name() + ":split-shares-block"
 			r.ob(key, "when a node is given a slice of another node's block, the two are tied by origin and a shared reference count (as Refer does), so the block is freed only after every reader of either part released it", fn, ins, linked && counted, fmt.Sprintf("origin linked=%v, count incremented=%v", linked, counted), true)
 		}
